@@ -234,7 +234,12 @@ def build(template_path, out_path, canary=False, repo=None, mutate=None):
     def emit_cut(cut):
         sf = source(cut.path)
         mclo = re.match(r"closure (\d+) as (\w+) in (.*)$", cut.selector)
-        mrng = re.match(r"range (.*?) \.\.\. (.*?) as (\w+)(\(.*\)(?:\s*->\s*.*?)?) in (fn .*|method .*)$", cut.selector)
+        mrng = re.match(r"range(?:\[(?P<kn>\d+/\d+)\])? (.*?) \.\.\. (.*?) as (\w+)(\(.*\)(?:\s*->\s*.*?)?) in (fn .*|method .*)$", cut.selector)
+        if mrng:
+            class _M:  # keep the positional group numbers used below, plus group 6 = k/n
+                def __init__(self, m): self.m = m
+                def group(self, i): return self.m.group("kn") if i == 6 else self.m.group(i + 1)
+            mrng = _M(mrng)
         marm = re.match(r"arm (.*?) as (\w+)(\(.*\)(?:\s*->\s*.*?)?) in (fn .*|method .*)$", cut.selector)
         if mclo:
             it = sf.find(mclo.group(3))
@@ -244,7 +249,9 @@ def build(template_path, out_path, canary=False, repo=None, mutate=None):
             cut.name = mclo.group(2)
         elif mrng:
             it = sf.find(mrng.group(5))
-            raw, cs, ce = sf.range_as_fn(it, mrng.group(1).replace("\\n", "\n"), mrng.group(2).replace("\\n", "\n"), mrng.group(3), mrng.group(4))
+            kn = mrng.group(6)
+            nth, total = (int(kn.split("/")[0]), int(kn.split("/")[1])) if kn else (0, 0)
+            raw, cs, ce = sf.range_as_fn(it, mrng.group(1).replace("\\n", "\n"), mrng.group(2).replace("\\n", "\n"), mrng.group(3), mrng.group(4), nth, total)
             from .rustlex import line_of
             s, e, l0, l1 = cs, ce, line_of(sf.src, cs), line_of(sf.src, ce)
             cut.name = mrng.group(3)
